@@ -70,3 +70,12 @@ CHECKS["C03"] = dict(
     level_text="Random search over DAG x responder store x selector x extension combinations with an exact wire-transcript oracle from an independent reference traversal.",
     level_note="Trusts go-ipld-prime's walk and the wire decoder.",
     technique="rapid property-based testing, wire transcript vs reference traversal", design_ref="DESIGN.md §4 C03")
+
+CHECKS["C08"] = dict(
+    pkg="props/c08", level="exploration", gomaxprocs=2,
+    rule="selector AST drawn from the full grammar (matcher incl. subset, explore-all/fields/index/range/union, recursive with limit in {none,0,1,50,99,100,101,10^6,MaxInt64} and optional stop-at, interpret-as, edges; nesting <= 5; field names that coincide with selector keywords; optional extra ignored entries shaped like nested recursions), rendered by hand and kept only if ipld-prime's ParseSelector accepts it. Oracle by construction: ValidateMaxRecursionDepth(node,100) (on the built node and on its dag-cbor wire form) errs iff the AST contains a recursion that is unbounded or > 100; second check: a default-configured real responder in the simulator answers RequestRejected iff so. Non-trivial: a recursive exploration nested under another clause (labels per parent kind).",
+    assumptions=["well-formed = accepted by go-ipld-prime's ParseSelector", "maximum depth 100 is impl's constant maxRecursionDepth"],
+    quick=dict(shards=2, timeout=300), thorough=dict(shards=16, timeout=3000),
+    level_text="Grammar-based random generation with ground truth known by construction; 30k selectors per quick run plus 1.2k end-to-end through a real responder. One defect (interpret-as) found and fixed.",
+    level_note="Trusts the AST's own bad() predicate (8 lines) and ParseSelector as the definition of well-formed.",
+    technique="grammar-based property testing with ground truth by construction", design_ref="DESIGN.md §6 C08")
